@@ -89,7 +89,7 @@ build_tests() {
 conf() {
   case "$1" in
     C01) Q=40   T=600 ;;
-    C02) Q=50   T=700 ;;
+    C02) Q=35   T=500 ;;
     C03) Q=150  T=2000 ;;
     C04) Q=60   T=800 ;;
     C05) Q=80   T=1000 ;;
